@@ -276,7 +276,15 @@ class LFPSGenerator(Elaboratable):
 
                 with m.If(count + 1 == repeat_cycles):
                     m.d.comb += self.completed.eq(1)
-                    m.next = "IDLE"
+                    m.d.ss   += count.eq(0)
+
+                    # If we're still being asked to generate, start the next burst right away, so
+                    # consecutive bursts start exactly one repeat interval apart (passing through
+                    # IDLE would stretch every period by a cycle).
+                    with m.If(self.generate):
+                        m.next = "BURST"
+                    with m.Else():
+                        m.next = "IDLE"
 
         return m
 
